@@ -2,6 +2,8 @@
     case:  ((op reroot|unroot|rotate|sort) (tree T) (i n) (cs (n ...)))
            ((op outgroup) (tree T) (names ("a" ...)) (remove T|F) (strict T|F))
            ((op midpoint) (tree T))
+           ((op outgroup) (tree T) (pre (rename "old" "new")|(graft i "name")) (names ...) (remove b) (strict b))
+           ((op outgroup_multi) (trees (T ...)) (names ...) (remove b) (strict b))
     obs :  ((err msg) (tree T') (audit (...)))   |   ((err msg))   |   ((panic msg))   *)
 From Coq Require Import String ZArith QArith Bool Arith List.
 From GT Require Import Base.Sexp Base.UTree Base.Codec Spec.Obs Model.Reroot Model.Rand Model.Outgroup Judge.Common.
@@ -230,10 +232,20 @@ Fixpoint has_prefix (p s : string) : bool :=
   | _, _ => false
   end.
 
-Definition judge_root (op : string) (c o : sexp) : verdict :=
-  match get_tree "tree" c with
-  | None => VBad "undecodable case"
-  | Some t =>
+(** a branch with a negative length other than the "absent" code -1: outside the property ("trees
+    with branch lengths"), such trees are used for the correspondence only *)
+Definition has_neg (t : utree) : bool :=
+  existsb (fun s => negb (qeqb (slen s) nilv) && negb (Qle_bool 0 (slen s))) (branch_splits [] t).
+
+Definition oracle_reduced (t g : utree) : option string :=
+  if negb (wf g) then Some "result is not a well-formed rooted structure"
+  else if negb (sset_eqb (ssort (leaves t)) (ssort (leaves g))) then Some "tip multiset changed"
+  else None.
+
+(** [t]: the tree the operation is applied to; [with_index]: the index clause applies (not after a
+    pre-edit that leaves the name index stale on purpose).  The oracle speaks first: a result that
+    the specification rejects is reported as such, with this input; then the correspondence. *)
+Definition judge_root_on (op : string) (t : utree) (with_index : bool) (c o : sexp) : verdict :=
     let setup : option (res utree * (utree -> option string) * option string * string) :=
         (* model result, oracle on success, oracle on refusal, tag *)
         if String.eqb op "outgroup" then
@@ -249,7 +261,9 @@ Definition judge_root (op : string) (c o : sexp) : verdict :=
                 fun g => oracle_outgroup_ok remove strict t g names,
                 oracle_outgroup_refused remove strict t names, tag)
         else if String.eqb op "midpoint" then
-          Some (reroot_midpoint t, oracle_midpoint_ok t, None, "midpoint")
+          Some (reroot_midpoint t,
+                (if has_neg t then oracle_reduced t else oracle_midpoint_ok t), None,
+                if has_neg t then "midpoint:negative" else "midpoint")
         else None in
     match setup with
     | None => VBad "bad case"
@@ -262,37 +276,91 @@ Definition judge_root (op : string) (c o : sexp) : verdict :=
         match get_string "err" o with
         | None => VBad "undecodable observation"
         | Some gerr =>
-          match model with
-          | Err m =>
-            if String.eqb gerr "" then VCorr ("model refuses (" ++ m ++ "), implementation succeeds")
-            else match oracle_refused with
-                 | Some m' => VOracle m'
-                 | None => VOk false (tag ++ ":err")
-                 end
-          | Ok t' =>
-            if negb (String.eqb gerr "") then VCorr ("implementation refuses: " ++ gerr ++ "; model: " ++ show_utree t')
-            else match get_tree "tree" o with
-                 | None => VBad "no tree in observation"
-                 | Some g =>
-                   match audit_ok o with
-                   | Some m => VOracle m
-                   | None =>
-                     if negb (utree_eqb t' g) then VCorr ("model: " ++ show_utree t')
-                     else match first_some [oracle_ok g; index_ok g o] with
-                          | Some m => VOracle m
-                          | None => VOk true tag
-                          end
-                   end
-                 end
-          end
+          if negb (String.eqb gerr "") then
+            (* the implementation refuses *)
+            match model with
+            | Err _ => match oracle_refused with
+                       | Some m' => VOracle m'
+                       | None => VOk false (tag ++ ":err")
+                       end
+            | Ok t' => VCorr ("implementation refuses: " ++ gerr ++ "; model: " ++ show_utree t')
+            end
+          else
+            match get_tree "tree" o with
+            | None => VBad "no tree in observation"
+            | Some g =>
+              match first_some [audit_ok o; oracle_ok g; if with_index then index_ok g o else None] with
+              | Some m => VOracle m
+              | None =>
+                match model with
+                | Err m => VCorr ("model refuses (" ++ m ++ "), implementation succeeds")
+                | Ok t' => if utree_eqb t' g then VOk true tag else VCorr ("model: " ++ show_utree t')
+                end
+              end
+            end
         end
       end
+    end.
+
+(** pre-edits that leave the name index stale: (pre (rename old new)): the case tree is the tree
+    after the renaming; (pre (graft i name)): the tree after the graft is read in the observation *)
+Definition pre_kind (c : sexp) : string :=
+  match get "pre" c with
+  | Some (SList (Atom k :: _)) => k
+  | _ => ""
+  end.
+
+Definition judge_root (op : string) (c o : sexp) : verdict :=
+  let k := pre_kind c in
+  if String.eqb k "graft" then
+    match get_string "panic" o with
+    | Some m => if has_prefix "build: " m || has_prefix "reinit: " m then VBad m else VOracle ("panic: " ++ m)
+    | None =>
+      match get_tree "mid" o, get_strings "midaudit" o with
+      | Some t, Some [] => judge_root_on op t false c o
+      | _, _ => VBad "no tree after the graft"
+      end
+    end
+  else
+    match get_tree "tree" c with
+    | None => VBad "undecodable case"
+    | Some t => judge_root_on op t (String.eqb k "") c o
+    end.
+
+(** one outgroup list applied in a loop to several trees: every result is judged on its own, and
+    the list must come back unchanged (a function must not write into its argument's storage) *)
+Fixpoint judge_each (c : sexp) (ts : list utree) (rs : list sexp) : verdict :=
+  match ts, rs with
+  | [], [] => VOk true "outgroup_multi"
+  | t :: ts', r :: rs' =>
+    match judge_root_on "outgroup" t true c r with
+    | VOk _ _ => judge_each c ts' rs'
+    | v => v
+    end
+  | _, _ => VBad "results and trees do not match"
+  end.
+
+Definition judge_multi (c o : sexp) : verdict :=
+  match get_string "panic" o with
+  | Some m => if has_prefix "build: " m || has_prefix "reinit: " m then VBad m else VOracle ("panic: " ++ m)
+  | None =>
+    match (x <- get "trees" c ;; dec_list dec_utree x), (x <- get "results" o ;; list_of x),
+          get_strings "names" c, get_strings "names_after" o with
+    | Some ts, Some rs, Some names, Some after =>
+      match judge_each c ts rs with
+      | VOk _ _ =>
+        if list_eqb String.eqb names after then VOk true "outgroup_multi"
+        else VOracle "the outgroup list of the caller was modified by the call (the next call with it roots on other tips)"
+      | v => v
+      end
+    | _, _, _, _ => VBad "undecodable multi-tree case"
     end
   end.
 
 Definition judge (c o : sexp) : verdict :=
   match get_string "op" c with
-  | Some op => if String.eqb op "outgroup" || String.eqb op "midpoint" then judge_root op c o
+  | Some op => if String.eqb op "outgroup_multi" then judge_multi c o
+               else if String.eqb op "outgroup" || String.eqb op "midpoint" then judge_root op c o
                else judge_basic op c o
   | None => VBad "no op"
   end.
